@@ -13,7 +13,8 @@
      compress <src> <out> <r|m> <nextra>                 cgio_compress_file with <nextra> other cgio files open
      mllcompress <src>                                   cg_configure(CG_CONFIG_COMPRESS,-1), cg_open(MODIFY), cg_close
      edit <file> <kind> <path> [args]                    one elementary edit (rename relabel retype redim databyte
-                                                         addchild delchild relink)
+                                                         setdata addchild delchild relink)
+     vals <file> <path>                                  type and data bytes of one node (for the value oracle of -t)
    every command but dump answers "R <cmd> ok" or "R <cmd> err:<where>:<code>". */
 #include <stdio.h>
 #include <stdlib.h>
@@ -203,6 +204,16 @@ int main(void) {
             else if (!strcmp(kind, "addchild")) e = cgio_create_node(cg, id, arg1, &nid);
             else if (!strcmp(kind, "delchild")) e = cgio_delete_node(cg, pid, id);
             else if (!strcmp(kind, "relink")) { e = cgio_delete_node(cg, pid, id); if (!e) e = cgio_create_link(cg, pid, leaf, arg1, arg2, &nid); }
+            else if (!strcmp(kind, "setdata")) {          /* arg = the node's new data (hex), same type and dimensions */
+                static unsigned char nb[1 << 13];
+                size_t n = unhex(a[3], (char *)nb);
+                char ty[CGIO_MAX_DATATYPE_LENGTH + 1]; cgsize_t dims[CGIO_MAX_DIMENSIONS]; int nd = 0, i; long long want;
+                if (cgio_get_data_type(cg, id, ty) || cgio_get_dimensions(cg, id, &nd, dims) || nd <= 0) e = -8;
+                else {
+                    want = own_size(ty); for (i = 0; i < nd; i++) want *= dims[i];
+                    e = ((long long)n != want) ? -8 : cgio_write_all_data(cg, id, nb);
+                }
+            }
             else if (!strcmp(kind, "retype") || !strcmp(kind, "redim") || !strcmp(kind, "databyte")) {
                 char ty[CGIO_MAX_DATATYPE_LENGTH + 1]; cgsize_t dims[CGIO_MAX_DIMENSIONS], nd2[CGIO_MAX_DIMENSIONS];
                 int nd = 0, i, n2 = 0; long long n, m; unsigned char *buf;
@@ -222,6 +233,22 @@ int main(void) {
                 free(buf);
             } else e = -9;
             { int c = cgio_close_file(cg); if (e) printf("R edit err:%s:%d\n", kind, e); else if (c) printf("R edit err:close:%d\n", c); else printf("R edit ok\n"); }
+        } else if (!strcmp(cmd, "vals")) {               /* vals <file> <path hex>: type, dimensions and the data bytes of one node */
+            int cg, e, nd = 0, i; double root, id; char path[4096], ty[CGIO_MAX_DATATYPE_LENGTH + 1]; cgsize_t dims[CGIO_MAX_DIMENSIONS];
+            sscanf(line, "%*s %s %s", a[0], a[2]); unhex(a[2], path);
+            if ((e = cgio_open_file(a[0], CGIO_MODE_READ, CGIO_FILE_NONE, &cg))) { printf("R vals err:open:%d\n", e); goto next; }
+            cgio_get_root_id(cg, &root);
+            if (cgio_get_node_id(cg, root, path, &id) || cgio_get_data_type(cg, id, ty) || cgio_get_dimensions(cg, id, &nd, dims) || nd <= 0 || !own_size(ty))
+                printf("R vals err:node:0\n");
+            else {
+                long long n = own_size(ty); unsigned char *buf;
+                for (i = 0; i < nd; i++) n *= dims[i];
+                buf = (unsigned char *)calloc((size_t)n + 16, 1);
+                if (n > (1 << 20) || cgio_read_all_data_type(cg, id, ty, buf)) printf("R vals err:read:0\n");
+                else { printf("R vals ok %s ", ty); for (i = 0; i < n; i++) printf("%02x", buf[i]); printf("\n"); }
+                free(buf);
+            }
+            cgio_close_file(cg);
         } else if (line[0] == '\n' || line[0] == '#') ;
         else printf("badline %s", line);
     next:
